@@ -1082,7 +1082,7 @@ fn gen_aiger_pair(rng: &mut Rng) -> (Vec<u8>, Vec<u8>, usize, String) {
 
 fn generate(cfg: &GenCfg, rng: &mut Rng, w: &mut dyn Write) {
     let scale = cfg.scale.max(1);
-    let (files, muts) = if cfg.thorough { (260 * scale, 400) } else { (36 * scale, 120) };
+    let (files, muts) = if cfg.thorough { (200 * scale, 360) } else { (36 * scale, 120) };
     let mut case = 0;
     // ---- hand-written files from the crate's tests and the format documentation
     let fixed: &[(&str, u32, &[u8])] = &[
@@ -1224,6 +1224,16 @@ fn generate(cfg: &GenCfg, rng: &mut Rng, w: &mut dyn Write) {
 }
 
 fn make(_f: &BTreeMap<String, String>) -> Box<dyn Scenario> {
+    // scratch directory of this run (input files for `load_file` and for the child process);
+    // directories left behind by runs that ended more than half an hour ago are removed
+    if let Ok(rd) = std::fs::read_dir(std::env::temp_dir()) {
+        for e in rd.flatten() {
+            let old = e.metadata().and_then(|m| m.modified()).ok().and_then(|t| t.elapsed().ok()).map_or(false, |d| d.as_secs() > 1800);
+            if old && e.file_name().to_string_lossy().starts_with("c18_parsers_") {
+                let _ = std::fs::remove_dir_all(e.path());
+            }
+        }
+    }
     let tmp = std::env::temp_dir().join(format!("c18_parsers_{}", std::process::id()));
     let _ = std::fs::create_dir_all(&tmp);
     Box::new(Parsers { base: Vec::new(), base2: Vec::new(), fmt: Fmt::Dimacs, opts: 0, tmp })
